@@ -193,6 +193,32 @@ class C17(vlib.Check):
             got = {i: int(Fraction(v)) for i, v in c["cnt"]}
             if got != mult:
                 return {"key": "count-not-multiplicity", "what": "counts are not the number of accepted substructures hashing to each position"}
+            # the two views stay in agreement when both unfolded fingerprints are folded again and again (A, B, A): the folded
+            # results are cached on the objects
+            from harness import molgen as MG
+            mol = MG.load_ref(case["ref"])
+            conf = mol.GetConformer(case["conf"])
+            o = dict(case["opts"], bits=2 ** 32)
+            objs = {}
+            for counts in (False, True):
+                f = MG.make_fprinter(dict(o, counts=counts))
+                f.run(conf, mol)
+                objs[counts] = f.get_fingerprint_at_level(-1)
+                if counts:
+                    ids = [(int(sh.identifier) + 2 ** 32) % 2 ** 32 for sh in f.get_shells_at_level(-1)]
+            import random
+            r2 = random.Random(case["conf"] * 7919 + len(ids))
+            A, B = r2.sample([4096, 1024, 256, 64, 16], 2)
+            for x in (A, B, A, B):
+                gb, gc = objs[False].fold(x), objs[True].fold(x)
+                m2 = {}
+                for i in ids:
+                    m2[i % x] = m2.get(i % x, 0) + 1
+                gcc = {int(k): int(v) for k, v in gc.counts.items() if v != 0}
+                if sorted(gcc) != sorted(int(i) for i in gb.indices) or sorted(int(i) for i in gc.indices) != sorted(int(i) for i in gb.indices):
+                    return {"key": "bit-count-support-differs:after-folds", "what": "after folding both views to %s (sequence %s) the positions with non-zero count are not the set bits" % (x, [A, B, A, B])}
+                if gcc != m2:
+                    return {"key": "count-not-multiplicity:after-folds", "what": "after folding to %s (sequence %s) the counts are not the multiplicities of the folded positions" % (x, [A, B, A, B])}
             return None
         r = self.impl(case)["res"]
         if "err" in r:
